@@ -348,6 +348,103 @@ class SlaveSideMonitor:
         return None
 
 
+class EnvSlaveCheck:
+    """Legality of the *environment* of an adapter whose slave port is played by the harness (`RefSlave`), judged on
+    the letters of the trace alone, so that a replayed or shrunk trace is only ever judged while its slave-response
+    letters are those of a byte memory that answers within `max_silent` cycles: an acknowledge needs a request
+    that was pending in the previous cycle, read data must be the memory content on the selected lanes, writes
+    update the memory, no `err`, no request left unanswered for more than `max_silent + 1` cycles.
+    `legal` turns False for good on the first violation (the history is then outside the property's quantifier).
+    `.mem` is the slave-side memory implied by the trace (used by the backing check of `MasterMemMonitor`)."""
+
+    def __init__(self, nbs, off=3, init_fn=None, adr_shift=0, max_silent=12,
+                 check_unselected=False):
+        self.nbs, self.off, self.init_fn, self.adr_shift = nbs, off, init_fn, adr_shift
+        self.max_silent, self.check_unselected = max_silent, check_unselected
+        self.mem = {}
+        self.prev = None          # (outs, ack letter) of the previous cycle
+        self.pending = 0
+        self.legal = True
+
+    def rd(self, a):
+        if a not in self.mem:
+            self.mem[a] = self.init_fn(a) if self.init_fn else 0
+        return self.mem[a]
+
+    def observe(self, letter, outs):
+        if not self.legal:
+            return False
+        sack, sdat, serr = letter[8], letter[9], letter[10]
+        o = self.off
+        if serr:
+            self.legal = False
+        prev = self.prev
+        prev_pending = (prev is not None and prev[0][o] and prev[0][o + 1] and not prev[1])
+        if sack:
+            if not prev_pending:
+                self.legal = False
+            else:
+                scyc, sstb, swe, sadr, ssel, sdw = prev[0][o:o + 6]
+                for lane in range(self.nbs):
+                    a = (sadr >> self.adr_shift) * self.nbs + lane
+                    if swe:
+                        if (ssel >> lane) & 1:
+                            self.mem[a] = (sdw >> (8 * lane)) & 0xFF
+                    elif (ssel >> lane) & 1 or self.check_unselected:
+                        if ((sdat >> (8 * lane)) & 0xFF) != self.rd(a):
+                            self.legal = False
+            self.pending = 0
+        elif prev_pending:
+            self.pending += 1
+            if self.pending > self.max_silent:
+                self.legal = False
+        else:
+            self.pending = 0
+        self.prev = (list(outs), sack)
+        return self.legal
+
+
+class EnvCsrCheck:
+    """Legality of the harness-played CSR side (`CsrGen`), judged on the letters alone: `csr.dat_r` in a cycle must
+    be the word the register file held at the address driven in the previous cycle (a `we` in that cycle replaces
+    the word afterwards).  Keeps replayed/shrunk traces inside the property's quantifier."""
+
+    def __init__(self, off=3):
+        self.off = off
+        self.regs = {}
+        self.prev = None
+        self.legal = True
+
+    def observe(self, letter, outs):
+        if not self.legal:
+            return False
+        exp = 0
+        if self.prev is not None:
+            adr, we, re, dat_w = self.prev
+            exp = self.regs.get(adr, 0)
+            if we:
+                self.regs[adr] = dat_w
+        if letter[8] != exp:
+            self.legal = False
+        self.prev = tuple(outs[self.off:self.off + 4])
+        return self.legal
+
+
+class Guarded:
+    """Monitors that judge only while the harness-played environment is legal."""
+    def __init__(self, env, *mons):
+        self.env, self.mons = env, mons
+
+    def observe(self, letter, outs):
+        if not self.env.observe(letter, outs):
+            return None
+        for m in self.mons:
+            r = m.observe(letter, outs)
+            if r:
+                return r
+        return None
+
+
 class Both:
     def __init__(self, *mons):
         self.mons = mons
@@ -455,13 +552,23 @@ class RefSlave:
     lanes.  It reads the adapter's slave-side request from the previous cycle's sampled outputs (the adapter
     holds an un-acknowledged request)."""
 
-    def __init__(self, nbs, off=3, init_fn=None, p_ack=(0.5, 1.0, 0.2, 0.9), garbage=True, adr_shift=0):
+    MAX_SILENT = 12     # L: a pending request is never left unanswered for more than L cycles
+
+    def __init__(self, nbs, off=3, init_fn=None, p_ack=(0.5, 1.0, 0.2, 0.9), garbage=True, adr_shift=0,
+                 max_silent=None):
         self.nbs, self.off, self.init_fn, self.p_ack, self.garbage = nbs, off, init_fn, p_ack, garbage
         self.adr_shift = adr_shift    # byte-addressed buses: word index = adr >> log2(nbs)
+        self.max_silent = self.MAX_SILENT if max_silent is None else max_silent
         self.reset()
+
+    @property
+    def request_cycles(self):
+        """D: a slave-side request lasts at most D cycles (presented, then answered after 1..L+1 cycles)."""
+        return self.max_silent + 2
 
     def reset(self):
         self.mem = {}
+        self.silent = 0
 
     def rd(self, a):
         if a not in self.mem:
@@ -477,9 +584,12 @@ class RefSlave:
         scyc, sstb, swe, sadr, ssel, sdat = last_outs[o:o + 6]
         prev_ack = last_letter[8]
         if not (scyc and sstb) or prev_ack:
+            self.silent = 0
             return (0, junk, 0)
-        if rng.random() >= self.p_ack[(t // 96) % len(self.p_ack)]:
+        if self.silent < self.max_silent and rng.random() >= self.p_ack[(t // 96) % len(self.p_ack)]:
+            self.silent += 1          # the environment guarantees its latency bound: after L silent cycles it answers
             return (0, junk, 0)
+        self.silent = 0
         d = 0
         for lane in range(self.nbs):
             a = (sadr >> self.adr_shift) * self.nbs + lane
